@@ -196,7 +196,7 @@ func c03Matrix(rc *RuleCtx) {
 					}
 				}
 			}
-			switch fn.Name() {
+			switch nm(fn) {
 			case "truncate":
 				if rn.Obj().Name() != "MemFS" {
 					return // handle-level Truncate is governed by the open mode (C02.mode)
@@ -436,7 +436,7 @@ func c03Matrix(rc *RuleCtx) {
 					v, truth := normCond(fa.Cond, fa.Truth)
 					for _, rv := range resolveRaw(v) {
 						if c, _ := resultOfCall(rv); c != nil && truth {
-							if fn := calleeFunc(c); fn != nil && fn.Name() == "checkPermission" {
+							if fn := calleeFunc(c); fn != nil && nm(fn) == "checkPermission" {
 								if m, isC := constInt(callArgs(c)[0]); isC && m&lk == lk && objKeyOf(callRecv(c)).s == dirKey {
 									return true
 								}
@@ -508,7 +508,7 @@ func featIdentityMgr(c *Config) int64 {
 func c03Admin(rc *RuleCtx) {
 	n := 0
 	for _, f := range rc.C.srcFuncs("memfs") {
-		switch f.Name() {
+		switch nm(f) {
 		case "checkPermission", "setMode", "setModTime":
 		default:
 			continue
